@@ -78,6 +78,9 @@ type Spec struct {
 	Roots       int
 	MaxDirCount uint64
 	Workers     int
+	// RootSpelling: how the configuration spells the root directories: 0 canonical; 1 with a trailing
+	// slash; 2 with a "." element ("<dir>/./root0", like the documented default "./testStorage")
+	RootSpelling int
 }
 
 // Inst is one opened database with its directories.
@@ -114,11 +117,27 @@ func (s Spec) dir() string {
 	return filepath.Join(Base(), n)
 }
 
-func (s Spec) Config() config.Config {
+// CanonRoots is the root directories in canonical spelling (what the harness looks at, however the
+// configuration spells them).
+func (s Spec) CanonRoots() []string {
 	d := s.dir()
 	roots := make([]string, max(s.Roots, 1))
 	for i := range roots {
 		roots[i] = filepath.Join(d, fmt.Sprintf("root%d", i))
+	}
+	return roots
+}
+
+func (s Spec) Config() config.Config {
+	d := s.dir()
+	roots := s.CanonRoots()
+	for i := range roots {
+		switch s.RootSpelling {
+		case 1:
+			roots[i] += "/"
+		case 2:
+			roots[i] = d + "/./" + fmt.Sprintf("root%d", i)
+		}
 	}
 	return config.Config{
 		Storage: config.Storage{DbPath: filepath.Join(d, "badger"), MaxDirCount: s.MaxDirCount, RootDirs: roots, GCPeriod: GCPeriod},
@@ -145,7 +164,7 @@ func NewProcess() {
 // Open opens (creating directories as the product does) the instance described by spec.
 func Open(spec Spec) (*Inst, error) {
 	cfg := spec.Config()
-	in := &Inst{Spec: spec, Dir: spec.dir(), Roots: append([]string(nil), cfg.Storage.RootDirs...), DBPath: cfg.Storage.DbPath}
+	in := &Inst{Spec: spec, Dir: spec.dir(), Roots: spec.CanonRoots(), DBPath: cfg.Storage.DbPath}
 	db, err := inline.Open(context.Background(), cfg)
 	if err != nil {
 		return nil, err
